@@ -1,7 +1,7 @@
 (* C19: the algorithm (complement, with the edge iterator) on every linear and every circular strand,
    any length: the residues added are the complements of the strand read backwards. *)
 From Coq Require Import ZArith String List Bool Lia.
-From PV Require Import Dna.
+From PV Require Import Dna C19_dna.
 Import ListNotations.
 Open Scope Z_scope.
 
@@ -88,6 +88,12 @@ Proof.
   induction names as [|y r IH]; intros k0 k H; [reflexivity|]. cbn [new_nodes find_node n_key List.length] in *.
   destruct (Z.eqb_spec k0 k); [lia|]. apply IH. lia.
 Qed.
+Lemma linear_keys_le names : forall k0 k, k0 + Z.of_nat (List.length names) - 1 <= k -> Forall (fun n => n_key n <= k) (linear_nodes k0 names).
+Proof.
+  induction names as [|y r IH]; intros k0 k H; [constructor|]. cbn [linear_nodes List.length] in *.
+  constructor; [cbn [n_key]; lia|]. apply IH. lia.
+Qed.
+
 Lemma find_linear_above names : forall k0 k, k0 + Z.of_nat (List.length names) <= k -> find_node (linear_nodes k0 names) k = None.
 Proof.
   induction names as [|y r IH]; intros k0 k H; [reflexivity|]. cbn [linear_nodes find_node n_key List.length] in *.
@@ -300,7 +306,9 @@ Proof.
   assert (Hlast : last (map Some (linear_nodes 0 s)) None =
                   Some {| n_key := Z.of_nat (List.length init); n_resid := Z.of_nat (List.length init) + 1; n_name := z |}).
   { rewrite Es, last_linear. rewrite !Z.add_0_l. reflexivity. }
-  rewrite Hlast. cbn [n_name n_key]. rewrite Ez.
+  rewrite Hlast. cbn [n_name n_key]. rewrite Ez. cbv zeta.
+  rewrite (kmax_bounded {| g_nodes := linear_nodes 0 s; g_adj := adj0; g_maxres := n |} (Z.of_nat (List.length init)))
+    by (cbn [g_nodes]; apply (linear_keys_le s 0); rewrite Es, app_length; cbn [List.length]; lia).
   set (k := Z.of_nat (List.length init)).
   set (st0 := {| s_g := add_node {| g_nodes := linear_nodes 0 s; g_adj := adj0; g_maxres := n |} (k + 1) cz;
                  s_corr := [(k, k + 1)]; s_total := k + 1 |}).
